@@ -292,3 +292,30 @@ def every_condition_class_hands_all_its_networks_and_parameters_to_the_optimizer
     if has_param:
         S.ensure("inverse-problem-parameter-is-optimised", any(p is D.f["_t"] for p in handed))
     S.ensure("nothing-but-learnable-tensors", all(isinstance(p, Tensor) and p.requires_grad for p in handed))
+
+
+@scenario("C07", [SOLVER + ".train_dataloader", SOLVER + ".val_dataloader"], configs=["max-steps-given", "max-steps-missing"])
+def dummy_dataloaders_drive_one_step_per_requested_iteration(S):
+    """the Solver feeds Lightning a dummy loader: one (empty) batch per requested training step -- trainer.max_steps of
+    them with the default batch size 1, 1000 when no maximum is given -- and exactly one batch for validation, so
+    training_step runs max_steps times and validation_step once per validation run"""
+    from tpv.loader import NativeClass
+
+    I = S.I
+    sol = mk_solver(S, [])
+    tr = I.new_without_init(NativeClass("Trainer"))
+    steps = S.int("max_steps", 1)
+    tr.f["max_steps"] = steps if S.cfg == "max-steps-given" else None
+    sol.f["trainer"] = tr
+    dl = S.method(sol, "train_dataloader")
+    want = zint(steps) if S.cfg == "max-steps-given" else z3.IntVal(1000)
+    ds = dl.f.get("dataset") if hasattr(dl, "f") else None
+    S.ensure("a-dataloader-over-a-one-axis-dummy-tensor", isinstance(ds, Tensor) and ds.val.rank == 1 and dl.f.get("batch_size") == 1)
+    if isinstance(ds, Tensor) and ds.val.rank == 1:
+        S.ensure("one-dummy-batch-per-requested-training-step", ds.val.shape[0].size_term() == want)
+    dv = S.method(sol, "val_dataloader")
+    dsv = dv.f.get("dataset") if hasattr(dv, "f") else None
+    okv = isinstance(dsv, Tensor) and dsv.val.rank == 1 and dv.f.get("batch_size") == 1
+    S.ensure("validation-dataloader-over-a-one-axis-dummy-tensor", okv)
+    if okv:
+        S.ensure("exactly-one-dummy-batch-for-validation", dsv.val.shape[0].size_term() == 1)
